@@ -221,3 +221,11 @@ def rule_inventory(ctx):
 
 
 RULES.append(("C17.e", "state-mutation inventory: no new site that changes the content of the state this property rests on", rule_inventory))
+
+
+def rule_mustpass(ctx):
+    from . import mustpass
+    mustpass.check(ctx, ['buffer-write-pushes', 'slot-write-stores'])
+
+
+RULES.append(("C17.f", "must-pass-through: no path around the effects this property rests on (added fast paths / early returns)", rule_mustpass))
